@@ -115,6 +115,29 @@ def check(ctx, idx, classes, rule, immutable=None, helper_methods=()):
                     f"{req}: TypeError",
                     line,
                 )
+        # ---- state handed to the constructor by __copy_create__ must be copied there (the clone owns its state)
+        if create is not None and init is not None:
+            ret = [r for r in walk_local(create) if isinstance(r, ast.Return) and r.value is not None]
+            call = ret[0].value if ret and isinstance(ret[0].value, ast.Call) else None
+            tname = (dotted(call.func) or "").split(".")[-1] if call is not None else None
+            ti, tinit = idx.resolve(tname, "__init__") if tname in idx.classes else (None, None)
+            if call is not None and tinit is not None:
+                from .effects import params_kept_by_identity
+                kept = params_kept_by_identity(tinit)
+                tparams = param_names(tinit)[1:]
+                passed = [(tparams[k], a) for k, a in enumerate(call.args) if k < len(tparams) and not isinstance(a, ast.Starred)]
+                passed += [(k.arg, k.value) for k in call.keywords if k.arg]
+                for pn, a in passed:
+                    if not (isinstance(a, ast.Attribute) and isinstance(a.value, ast.Name) and a.value.id == "self"):
+                        continue            # a call (`self._root.copy()`) or a literal: already a new object
+                    if (cls, a.attr) in immutable or (cls, pn) in immutable:
+                        continue
+                    n += 1
+                    ctx.ob(f"{rule}.copy-owns-state", oc.rel, f"{cls}.__copy_create__", f"{tname}({pn}=self.{a.attr}) - __init__ keeps {pn} " +
+                           ("as it is" if pn in kept else "as a new object"), pn not in kept,
+                           f"the copy is built from the original's own `{a.attr}` and {tname}.__init__ stores the object it is given"
+                           + (f" ({kept[pn][0][1]}, line {kept[pn][0][0]})" if pn in kept else "") + ": original and copy share it, "
+                           "a change of one shows in the other", create.lineno)
         # ---- fill
         fill = ci.methods.get("__copy_fill__")
         funcs = []
